@@ -37,6 +37,11 @@ def cases(tier: str, seed: int) -> list[dict]:
         ev = [{"a": "Lookup", "p": p} for p in pts]
         ev += [{"a": "SelectPoint", "p": p} for p in pts[:: max(1, len(pts) // 8)]]
         out.append({"src": "gen", "world": w, "events": ev})
+    for k, c in enumerate(out):
+        if k % 2 == 0 and c.get("world") and c["events"]:
+            first = next((e for e in c["events"] if "p" in e), None)
+            if first:      # (built before the tree used by get_index_for_point is)
+                c["events"].insert(0, {"a": "SpatialIndex", "p": first["p"]})
     return out
 
 
